@@ -289,3 +289,16 @@ Lemma table_div_zero fuel w b p x : is_div b = true -> In (Bin w b, p) table ->
   in_s (bits w) x ->
   wop_sem_signed (Bin w b) [x; 0] = None /\ py_run fuel p [x; 0] = Internal ZeroDiv.
 Proof. intros D I Hx. destruct (table_sound _ p I) as [-> V]. now apply py_run_div_zero. Qed.
+
+(* REFUTED for the target-independent reading of the IR (Model.WasmIr.ir_run: shifts are defined only for
+   0 <= count < width): wasm2ppci does not mask the count, so i32.shl 1 32 (spec: 1) is undefined behaviour
+   of the emitted IR.  The python target masks inside IrPy.ishl/ishr (table_value above covers it). *)
+Theorem shift_count_unmasked_in_ir :
+  exists o p args r, In (o, p) table /\ args_ok o args /\
+                     wop_sem_signed o args = Some r /\ ir_run 100 p args = None /\ py_run 100 p args = Ok r.
+Proof.
+  exists (Bin W32 Shl), (expected (Bin W32 Shl)), [1; 32], 1.
+  split; [apply table_complete; reflexivity|]. split.
+  - repeat constructor; unfold in_s; cbn; lia.
+  - repeat split; vm_compute; reflexivity.
+Qed.
